@@ -549,7 +549,8 @@ impl<T: SerializableType> SerializableType for Vec<T> {
     
     fn deserialize<I: DataInput>(input: &mut I) -> Result<Self> {
         let len = input.read_u32()? as usize;
-        let mut vec = Vec::with_capacity(len);
+        // untrusted length prefix: cap the up-front reservation, the vector grows as elements arrive
+        let mut vec = Vec::with_capacity(len.min(4096));
         for _ in 0..len {
             vec.push(T::deserialize(input)?);
         }
